@@ -116,6 +116,8 @@ def program_list(tier):
             progs.append(("scalar", shape, dims, op))
             progs.append(("binary", shape, dims, op))
         progs.append(("broadcast", shape, dims))
+        if len(dims) == 2 and shape[0] == shape[1]:
+            progs.append(("broadcast-perm", shape, dims))
         progs.append(("join", shape, dims, "coord"))
         progs.append(("join", shape, dims, "newdim"))
         progs.append(("join", shape, dims, "existing"))
@@ -320,6 +322,21 @@ def build_and_eval(prog):
         c2 = dict(coords)
         c2["bx"] = list(B.coords["bx"])
         return finish(act, want, tuple(dims) + ("bx",), c2)
+    if kind == "broadcast-perm":
+        # the target stores the shared dimensions in another order than the source
+        B = Src("b", (shape[1], shape[0], 2), (dims[1], dims[0], "bx"))
+        B.action.nodes = B.action.nodes.assign_coords({dims[0]: coords[dims[0]], dims[1]: coords[dims[1]]})
+        act = apply_guarded("broadcast", lambda: A.action.broadcast(B.action))
+        rdims = [str(d) for d in act.nodes.dims]
+        if sorted(rdims) != sorted(list(dims) + ["bx"]):
+            raise Violated("dims-differ-from-documented", f"{rdims}")
+        c2 = dict(coords)
+        c2["bx"] = list(B.coords["bx"])
+        want = {}
+        for idx in np.ndindex(*[len(c2[d]) for d in rdims]):
+            byname = dict(zip(rdims, idx))
+            want[idx] = vals[(byname[dims[0]], byname[dims[1]])]
+        return finish(act, want, tuple(rdims), c2)
     if kind == "join":
         variant = prog[3]
         B = Src("b", shape, dims)
